@@ -201,7 +201,7 @@ fn small<F: Field>(cs: &[u64]) -> F {
 fn lambdas<F: Field>(n: usize, all: bool) -> Vec<F> {
     if all { return field_elems::<F>().into_iter().filter(|x| !x.is_zero()).collect(); }
     let k = F::extension_degree();
-    let mut v: Vec<F> = vec![F::one(), small(&[2]), if k > 1 { small(&[3, 1, 2]) } else { small(&[5]) }, -F::one(), small(&[5, 0, 1]), small(&[3])];
+    let mut v: Vec<F> = vec![F::one(), small(&[2]), if k > 1 { small(&[3, 1, 2]) } else { small(&[5]) }, -F::one(), small(&[5, 0, 1]), small(&[3]), small(&[6, 2]), small(&[4])];
     v.dedup();
     let mut w: Vec<F> = Vec::new();
     for x in v { if !x.is_zero() && !w.contains(&x) { w.push(x); } }
@@ -260,15 +260,16 @@ fn sw_suite<P: sw::SWCurveConfig>(out: &mut Out, rng: &mut Rng, pfx: &str, inp: 
     let reps = &inp.reps;
     let n = reps.len();
     let l = |op: &str, args: String| format!("C03 sw.{} {} {}", op, pfx, args);
-    // ---- unary
-    for p in reps {
+    // ---- unary (sampled mode: a regular subset of the representatives)
+    let ustep = match mode { Mode::Exhaustive => 1, Mode::Sampled(k) => (n / (150 + k / 20)).max(1) };
+    for p in reps.iter().step_by(ustep) {
         let p = *p;
         out.line(&l("dbl", jac(&p)), &guarded(|| jac(&p.double())));
         out.line(&l("neg", jac(&p)), &guarded(|| jac(&(-p))));
         out.line(&l("iszero", jac(&p)), &guarded(|| b01(p.is_zero())));
         out.line(&l("toaffine", jac(&p)), &guarded(|| swaff(&p.into_affine())));
     }
-    for a in &inp.affs_ext {
+    for a in inp.affs_ext.iter().step_by(ustep) {
         let a = *a;
         out.line(&l("fromaffine", swaff(&a)), &guarded(|| jac(&a.into_group())));
         out.line(&l("aneg", swaff(&a)), &guarded(|| swaff(&(-a))));
@@ -282,14 +283,12 @@ fn sw_suite<P: sw::SWCurveConfig>(out: &mut Out, rng: &mut Rng, pfx: &str, inp: 
             for _ in 0..k { pairs.push((rng.below(n as u64) as usize, rng.below(n as u64) as usize)); }
             // structured: every representative with itself, with each identity form, and with every
             // representative of the same and of the opposite point
-            for i in 0..n {
+            let step = (n / (40 + k / 50)).max(1);
+            for i in (0..n).step_by(step) {
                 pairs.push((i, i));
-                for z in 0..4.min(n) { pairs.push((i, z)); pairs.push((z, i)); }
+                for z in 0..4.min(n) { if (i + z) % 2 == 0 { pairs.push((i, z)); } else { pairs.push((z, i)); } }
+                for j in 0..n { if reps[i] == reps[j] || reps[i] == -reps[j] { pairs.push((i, j)); } }
             }
-            let step = (n / 200).max(1);
-            for i in (0..n).step_by(step) { for j in 0..n {
-                if reps[i] == reps[j] || reps[i] == -reps[j] { pairs.push((i, j)); }
-            } }
         }
     }
     for (cnt, &(i, j)) in pairs.iter().enumerate() {
@@ -306,11 +305,12 @@ fn sw_suite<P: sw::SWCurveConfig>(out: &mut Out, rng: &mut Rng, pfx: &str, inp: 
         Mode::Exhaustive => { for i in 0..n { for j in 0..na { mp.push((i, j)); } } }
         Mode::Sampled(k) => {
             for _ in 0..k / 2 { mp.push((rng.below(n as u64) as usize, rng.below(na as u64) as usize)); }
-            let step = (n / 200).max(1);
+            let step = (n / (40 + k / 50)).max(1);
             for i in (0..n).step_by(step) { for j in 0..na {
                 let g = inp.affs_ext[j].into_group();
-                if j < 2 || i < 4 || reps[i] == g || reps[i] == -g { mp.push((i, j)); }
+                if j < 2 || reps[i] == g || reps[i] == -g { mp.push((i, j)); }
             } }
+            for i in 0..4.min(n) { for j in (0..na).step_by((na / 40).max(1)) { mp.push((i, j)); } }
         }
     }
     for (cnt, &(i, j)) in mp.iter().enumerate() {
@@ -326,7 +326,7 @@ fn sw_suite<P: sw::SWCurveConfig>(out: &mut Out, rng: &mut Rng, pfx: &str, inp: 
         Mode::Exhaustive => { for i in 0..na { for j in 0..na { ap.push((i, j)); } } }
         Mode::Sampled(k) => {
             for _ in 0..k / 2 { ap.push((rng.below(na as u64) as usize, rng.below(na as u64) as usize)); }
-            for i in 0..na { ap.push((i, i)); ap.push((i, 0)); ap.push((0, i)); ap.push((1, i));
+            for i in (0..na).step_by((na / (40 + k / 50)).max(1)) { ap.push((i, i)); ap.push((i, 0)); ap.push((0, i)); ap.push((1, i));
                 let m = -inp.affs_ext[i];
                 if let Some(j) = inp.affs_ext.iter().position(|x| *x == m) { ap.push((i, j)); } }
         }
@@ -469,14 +469,15 @@ fn te_suite<P: te::TECurveConfig>(out: &mut Out, rng: &mut Rng, pfx: &str, inp: 
     let reps = &inp.reps;
     let n = reps.len();
     let l = |op: &str, args: String| format!("C03 te.{} {} {}", op, pfx, args);
-    for p in reps {
+    let ustep = match mode { Mode::Exhaustive => 1, Mode::Sampled(k) => (n / (150 + k / 20)).max(1) };
+    for p in reps.iter().step_by(ustep) {
         let p = *p;
         out.line(&l("dbl", ext(&p)), &guarded(|| ext(&p.double())));
         out.line(&l("neg", ext(&p)), &guarded(|| ext(&(-p))));
         out.line(&l("iszero", ext(&p)), &guarded(|| b01(p.is_zero())));
         out.line(&l("toaffine", ext(&p)), &guarded(|| teaff(&p.into_affine())));
     }
-    for a in &inp.affs {
+    for a in inp.affs.iter().step_by(ustep) {
         let a = *a;
         out.line(&l("fromaffine", teaff(&a)), &guarded(|| ext(&a.into_group())));
         out.line(&l("aneg", teaff(&a)), &guarded(|| teaff(&(-a))));
@@ -488,11 +489,12 @@ fn te_suite<P: te::TECurveConfig>(out: &mut Out, rng: &mut Rng, pfx: &str, inp: 
         Mode::Sampled(k) => {
             for _ in 0..k { pairs.push((rng.below(n as u64) as usize, rng.below(n as u64) as usize)); }
             let nl = n / inp.affs.len().max(1);
-            for i in 0..n { pairs.push((i, i)); for z in 0..nl.min(n) { pairs.push((i, z)); pairs.push((z, i)); } }
-            let step = (n / 200).max(1);
-            for i in (0..n).step_by(step) { for j in 0..n {
-                if reps[i] == reps[j] || reps[i] == -reps[j] { pairs.push((i, j)); }
-            } }
+            let step = (n / (40 + k / 50)).max(1);
+            for i in (0..n).step_by(step) {
+                pairs.push((i, i));
+                for z in 0..nl.min(n) { if (i + z) % 2 == 0 { pairs.push((i, z)); } else { pairs.push((z, i)); } }
+                for j in 0..n { if reps[i] == reps[j] || reps[i] == -reps[j] { pairs.push((i, j)); } }
+            }
         }
     }
     for (cnt, &(i, j)) in pairs.iter().enumerate() {
@@ -508,7 +510,7 @@ fn te_suite<P: te::TECurveConfig>(out: &mut Out, rng: &mut Rng, pfx: &str, inp: 
         Mode::Exhaustive => { for i in 0..n { for j in 0..na { mp.push((i, j)); } } }
         Mode::Sampled(k) => {
             for _ in 0..k / 2 { mp.push((rng.below(n as u64) as usize, rng.below(na as u64) as usize)); }
-            let step = (n / 200).max(1);
+            let step = (n / (40 + k / 50)).max(1);
             for i in (0..n).step_by(step) { for j in 0..na {
                 let g = inp.affs[j].into_group();
                 if j < 1 || reps[i] == g || reps[i] == -g { mp.push((i, j)); }
@@ -527,7 +529,7 @@ fn te_suite<P: te::TECurveConfig>(out: &mut Out, rng: &mut Rng, pfx: &str, inp: 
         Mode::Exhaustive => { for i in 0..na { for j in 0..na { ap.push((i, j)); } } }
         Mode::Sampled(k) => {
             for _ in 0..k / 2 { ap.push((rng.below(na as u64) as usize, rng.below(na as u64) as usize)); }
-            for i in 0..na { ap.push((i, i)); ap.push((i, 0)); ap.push((0, i));
+            for i in (0..na).step_by((na / (40 + k / 50)).max(1)) { ap.push((i, i)); ap.push((i, 0)); ap.push((0, i));
                 let m = -inp.affs[i];
                 if let Some(j) = inp.affs.iter().position(|x| *x == m) { ap.push((i, j)); } }
         }
@@ -637,34 +639,36 @@ fn main() {
     let (o, r) = (&mut out, &mut rng);
     let th = a.thorough;
     use Mode::*;
+    // sw_toy(…, name, field, group order, #rescalings λ, all λ ∈ F*?, pair mode, sub/msub/asub on every pair?, is_on_curve on all (x, y)?)
+    // te_toy(…, name, field, #affine points, r, complete?, #rescalings λ, all λ?, pair mode, sub on every pair?, is_on_curve on all (x, y)?)
     // ---- toy short-Weierstrass curves over F_13: exhaustive in both tiers (thorough: every λ ∈ F_13*)
     sw_toy::<SW13A>(o, r, &a, "SW13A", "d", 7, 3, th, Exhaustive, true, true);
-    sw_toy::<SW13B>(o, r, &a, "SW13B", "d", 21, 3, th, Exhaustive, th, true);
+    sw_toy::<SW13B>(o, r, &a, "SW13B", "d", 21, if th { 6 } else { 3 }, false, Exhaustive, th, true);
     sw_toy::<SW13C>(o, r, &a, "SW13C", "d", 12, 3, th, Exhaustive, true, true);
     sw_toy::<SW13D>(o, r, &a, "SW13D", "d", 14, 3, th, Exhaustive, true, true);
-    sw_toy::<SW13E>(o, r, &a, "SW13E", "d", 20, 3, th, Exhaustive, th, true);
+    sw_toy::<SW13E>(o, r, &a, "SW13E", "d", 20, if th { 6 } else { 3 }, false, Exhaustive, th, true);
     sw_toy::<SW13F>(o, r, &a, "SW13F", "d", 13, 3, th, Exhaustive, th, true);
-    // ---- extension fields
-    sw_toy::<SW49A>(o, r, &a, "SW49A", "7:2:6", 48, if th { 4 } else { 2 }, false, Exhaustive, th, true);
-    sw_toy::<SW49B>(o, r, &a, "SW49B", "7:2:6", 44, if th { 4 } else { 2 }, false, if th { Exhaustive } else { Sampled(1500) }, th, th);
-    sw_toy::<SW169A>(o, r, &a, "SW169A", "d:2:2", 193, 2, false, if th { Exhaustive } else { Sampled(1000) }, false, false);
-    sw_toy::<SW343A>(o, r, &a, "SW343A", "7:3:2", 364, 2, false, if th { Exhaustive } else { Sampled(2500) }, false, false);
-    sw_toy::<SW343B>(o, r, &a, "SW343B", "7:3:2", 308, 2, false, if th { Sampled(40000) } else { Sampled(1000) }, false, false);
+    // ---- extension fields (SW49A exhaustive in both tiers)
+    sw_toy::<SW49A>(o, r, &a, "SW49A", "7:2:6", 48, if th { 3 } else { 2 }, false, Exhaustive, th, true);
+    sw_toy::<SW49B>(o, r, &a, "SW49B", "7:2:6", 44, if th { 3 } else { 2 }, false, if th { Exhaustive } else { Sampled(600) }, th, th);
+    sw_toy::<SW169A>(o, r, &a, "SW169A", "d:2:2", 193, 2, false, if th { Sampled(30000) } else { Sampled(800) }, false, false);
+    sw_toy::<SW343A>(o, r, &a, "SW343A", "7:3:2", 364, 2, false, if th { Sampled(30000) } else { Sampled(1200) }, false, false);
+    sw_toy::<SW343B>(o, r, &a, "SW343B", "7:3:2", 308, 2, false, if th { Sampled(15000) } else { Sampled(600) }, false, false);
     // ---- larger prime fields
-    sw_toy::<SW127A>(o, r, &a, "SW127A", "7f", 127, 3, false, if th { Exhaustive } else { Sampled(1500) }, false, false);
-    sw_toy::<SW127B>(o, r, &a, "SW127B", "7f", 148, 3, false, if th { Exhaustive } else { Sampled(1500) }, false, false);
-    sw_toy::<SW127C>(o, r, &a, "SW127C", "7f", 136, 3, false, if th { Exhaustive } else { Sampled(1500) }, false, false);
-    sw_toy::<SW257A>(o, r, &a, "SW257A", "101", 258, 2, false, if th { Sampled(60000) } else { Sampled(1000) }, false, false);
-    sw_toy::<SW257B>(o, r, &a, "SW257B", "101", 251, 2, false, if th { Sampled(60000) } else { Sampled(1000) }, false, false);
-    // ---- toy twisted-Edwards curves
-    te_toy::<TE13A>(o, r, &a, "TE13A", "d", 20, 5, true, 3, th, Exhaustive, true, true);
+    sw_toy::<SW127A>(o, r, &a, "SW127A", "7f", 127, 3, false, if th { Sampled(15000) } else { Sampled(600) }, false, false);
+    sw_toy::<SW127B>(o, r, &a, "SW127B", "7f", 148, 2, false, if th { Exhaustive } else { Sampled(600) }, false, false);
+    sw_toy::<SW127C>(o, r, &a, "SW127C", "7f", 136, 3, false, if th { Sampled(15000) } else { Sampled(600) }, false, false);
+    sw_toy::<SW257A>(o, r, &a, "SW257A", "101", 258, 2, false, if th { Sampled(12000) } else { Sampled(600) }, false, false);
+    sw_toy::<SW257B>(o, r, &a, "SW257B", "101", 251, 2, false, if th { Sampled(12000) } else { Sampled(600) }, false, false);
+    // ---- toy twisted-Edwards curves: complete ones on the whole curve, incomplete ones on ⟨G⟩ (odd prime order)
+    te_toy::<TE13A>(o, r, &a, "TE13A", "d", 20, 5, true, if th { 6 } else { 3 }, false, Exhaustive, th, true);
     te_toy::<TE13B>(o, r, &a, "TE13B", "d", 12, 3, true, 3, th, Exhaustive, true, true);
-    te_toy::<TE13I>(o, r, &a, "TE13I", "d", 18, 5, false, 4, true, Exhaustive, true, true);
-    te_toy::<TE13J>(o, r, &a, "TE13J", "d", 18, 5, false, 4, true, Exhaustive, true, true);
-    te_toy::<TE127A>(o, r, &a, "TE127A", "7f", 124, 31, true, 3, false, if th { Exhaustive } else { Sampled(2000) }, false, false);
-    te_toy::<TE127I>(o, r, &a, "TE127I", "7f", 122, 31, false, 4, false, Exhaustive, th, false);
-    te_toy::<TE127S>(o, r, &a, "TE127S", "7f", 132, 17, false, 4, false, Exhaustive, true, false);
-    te_toy::<TE257A>(o, r, &a, "TE257A", "101", 236, 59, true, 3, false, if th { Exhaustive } else { Sampled(2000) }, false, false);
+    te_toy::<TE13I>(o, r, &a, "TE13I", "d", 18, 5, false, 4, th, Exhaustive, true, true);
+    te_toy::<TE13J>(o, r, &a, "TE13J", "d", 18, 5, false, 4, th, Exhaustive, true, true);
+    te_toy::<TE127A>(o, r, &a, "TE127A", "7f", 124, 31, true, if th { 2 } else { 3 }, false, if th { Exhaustive } else { Sampled(800) }, false, false);
+    te_toy::<TE127I>(o, r, &a, "TE127I", "7f", 122, 31, false, if th { 4 } else { 2 }, false, Exhaustive, th, false);
+    te_toy::<TE127S>(o, r, &a, "TE127S", "7f", 132, 17, false, if th { 4 } else { 2 }, false, Exhaustive, true, false);
+    te_toy::<TE257A>(o, r, &a, "TE257A", "101", 236, 59, true, 3, false, if th { Sampled(25000) } else { Sampled(800) }, false, false);
     // ---- shipped curves
     use ark_test_curves::{bls12_381, ed_on_bls12_381, mnt4_753, secp256k1, bn384_small_two_adicity as bn384};
     sw_real::<bls12_381::g1::Config>(o, r, &a, "bls12_381_g1", &hexp::<bls12_381::Fq>(), "z");
